@@ -336,10 +336,7 @@ def main():
     NT = 5 if tier == 'quick' else 6
     from checks import histlib as HL
     r = C.rng()
-    hjobs = [(p, c) for p, c in HL.HANDCRAFTED]
-    for parents in shapes_upto(3 if tier == 'quick' else 4):
-        if parents:
-            hjobs += [(h.parents, h.content) for h in HL.valid_histories(parents, r, 3 if tier == 'quick' else 8)]
+    hjobs = HL.history_list(tier, r, 3 if tier == 'quick' else 4, 3 if tier == 'quick' else 8)
     rep.cov['bounds'] = dict(percentile_inputs='0..%d symbolic values (percentiles 0,1,10,33,50,66,75,90,99,100 + monotonicity)' % NP, rank_index='symbolic n in [1, 10000], symbolic p in [0, 100]',
                              fee_selection='trees up to %d blocks, 0..2 symbolic rates per block, symbolic cut' % NT, histories=len(hjobs),
                              outside='vsize of the dependency (symbol), more than 10,000 real transactions (the cut is symbolic instead), eager/lazy switch (heartbeat flag)')
